@@ -5,7 +5,7 @@ CONSTANTS
   Kind = "contacts"
   Atoms <- AtomsListE
   Prefix <- PfxNone
-  MaxLen = 29
+  MaxLen = 30
   Cfgs <- CfgsCont
   Junk = 34
   EmitOn = TRUE
